@@ -147,11 +147,13 @@ Proof.
     { unfold u64. apply N.mod_small. lia. }
     rewrite Eu.
     destruct (IH (off + sz) cs) as (A & B & C & D & E & F & G); [lia|].
-    simpl. rewrite A, B, C, D. unfold sp_path, sp_len. simpl.
-    repeat split; auto; try lia.
-    + rewrite F. reflexivity.
-    + constructor; [|exact G]. unfold mk_file. simpl.
-      destruct (set_range off sz cs); reflexivity.
+    cbv zeta in *. simpl.
+    split; [rewrite A; reflexivity|]. split; [rewrite B; reflexivity|]. split; [rewrite C; reflexivity|].
+    split; [rewrite D; unfold sp_len; simpl; lia|].
+    split; [split; [reflexivity | exact E]|].
+    split; [rewrite F; unfold sp_len; simpl; reflexivity|].
+    constructor; [|exact G]. unfold mk_file. simpl.
+    destruct (set_range off sz cs); reflexivity.
 Qed.
 
 (* ------------------------------------------------------------ multi-file result *)
